@@ -53,8 +53,11 @@ func classify(goOut, vmOut string) string {
 	return "value"
 }
 
-// evalProg runs both sides of p inside a fresh scratch directory.
-func evalProg(p *Prog) *progEval {
+// evalProg runs both sides of p inside a fresh scratch directory. If neo-go
+// rejects p the reference side is normally skipped (the caller splits the
+// file); goAlways builds it nevertheless, to tell a program only neo-go
+// rejects from one the generator got wrong.
+func evalProg(p *Prog, goAlways bool) *progEval {
 	dir, cleanup := vk.Scratch("c14")
 	defer cleanup()
 	ev := &progEval{Outcome: map[string]int{}}
@@ -63,7 +66,12 @@ func evalProg(p *Prog) *progEval {
 	tNeo.Add(int(time.Since(t0).Milliseconds()))
 	if err != nil {
 		ev.NeoErr = err.Error()
-		return ev // nothing to compare; the caller splits the file
+		if goAlways {
+			if _, gerr := goSide(dir, p); gerr != nil {
+				ev.GoErr = gerr.Error()
+			}
+		}
+		return ev // nothing to compare
 	}
 	t0 = time.Now()
 	goOut, gerr := goSide(dir, p)
@@ -166,7 +174,7 @@ func TestProbe(t *testing.T) {
 	if err != nil {
 		t.Fatal(err)
 	}
-	ev := evalProg(p)
+	ev := evalProg(p, true)
 	if ev.NeoErr != "" {
 		fmt.Println("NEO-GO COMPILE ERROR:", ev.NeoErr)
 	}
